@@ -107,6 +107,15 @@ def plan(spec, tier, seed):
     for L in range(1, full + 1):
         hist += list(itertools.product(names, repeat=L))
     rng = np.random.RandomState(seed * 7919 + sum(map(ord, spec.name)))
+    if names and full < 3:
+        # A, B, A: a mutator is repeated after another one ran in between (what a hand-made "unchanged since my last
+        # call" shortcut inside a mutator gets wrong); all ordered pairs for small alphabets, a seeded sample otherwise
+        aba = [(a, b, a) for a in names for b in names if a != b]
+        cap = 30 if tier == "quick" else 200
+        if len(aba) > cap:
+            idx = sorted(rng.choice(len(aba), size=cap, replace=False).tolist())
+            aba = [aba[i] for i in idx]
+        hist += aba
     if names:
         for L, n in samples.items():
             total = len(names) ** L
